@@ -44,6 +44,7 @@ TRun ==
           \cup When(e.exit = 0 /\ e.exception = "", "C08_RunFailed")
           \* C09
           \cup When(e.inputsUnchanged, "C09_InputsUntouched")
+          \cup When(e.bomSame, "C09_ByteOrderMark")          \* as many byte-order marks at the start of the output as of the input
           \cup When(ToSet(e.newFiles) \subseteq ToSet(e.allowedNew), "C09_OnlyDocumentedFiles")
           \cup When(e.skipped \/ e.outputExists, "C09_OutputWritten")
           \cup When(e.skipped \/ ~e.outputExists \/ e.outParses, "C09_OutputIsValidCss")
